@@ -5,6 +5,16 @@ from common import Rng
 
 import pytrs
 
+
+def safely(rep, what, f, *a):
+    """run one oracle check; an exception escaping the library is itself a failing input for the observables"""
+    try:
+        return f(rep, *a)
+    except Exception as e:  # noqa
+        rep.violation('failing-input', {'check': what, 'args': [str(x)[:300] for x in a], 'why': f'raised {type(e).__name__}: {e}'})
+        return None
+
+
 RULE = ("all kinds of strings x {layout='copy_all' via init keyword, config string, parse(layout=) committed or not}; for "
         "deduced layouts: strings lacking a Twp/Rge, lacking a section, or whose sections are all rejected (colon required "
         "but absent); non-trivial = text that would otherwise split into >= 2 tracts, or a fallback case; distinct by (text, channel)")
@@ -67,7 +77,7 @@ def run(ctx):
         r = rng.fork(i)
         text = descs.any_text(r)
         extra = r.choice(['', '', 'segment', 'sec_within', 'sec_colon_required', 'parse_qq', 'ocr_scrub'])
-        check_forced(rep, text, extra)
+        safely(rep, 'forced', check_forced, text, extra)
         rep.count(4)
         rep.nontrivial((text, extra))
         rep.sample({'text': text[:160], 'config': extra}, cap=3)
@@ -97,7 +107,7 @@ def run(ctx):
             txt = descs.malformed(r)
             kind = 'any'
             cfg = descs.valid_config(r)
-        check_fallback(rep, txt, cfg, kind)
+        safely(rep, 'fallback', check_fallback, txt, cfg, kind)
         rep.count()
         rep.nontrivial((txt, kind))
         rep.dist('c11_fallback_kind', kind)
